@@ -82,6 +82,10 @@ SHAPES = [
     ("serialize-to-null", "{ bl bv a }", ["Query.bl", "Query.a"], "scalars"),
     ("serialize-to-null-nonnull", "{ a bn }", ["Query.a", "Query.bn"], "scalars"),
     ("serialize-to-null-item", "{ bls bv }", ["Query.bls", "Query.bv"], "scalars"),
+    # null items (nullable and non-null item types) and lists of lists: the two executors complete lists with different code
+    ("null-items", "{ lz { x y } numz a lzn { y } }", ["Query.lz", "Obj.x", "Query.numz", "Query.lzn"]),
+    ("matrix", "{ mx mo { x y } a }", ["Query.mx", "Query.mo", "Obj.x"]),
+    ("matrix-nonnull", "{ mon { y x } b }", ["Query.mon", "Obj.y", "Query.b"]),
 ]
 STYLES = ("default", "sync", "async", "nested", "submit")
 
@@ -133,7 +137,7 @@ def cases(tier):
         yield c
 
 
-LIST_FIELDS = ("l", "ln", "u", "m4")
+LIST_FIELDS = ("l", "ln", "u", "m4", "lz", "lzn", "mo", "mon", "mx")
 ABSTRACT_FIELDS = ("i", "u")
 INT_FIELDS = ("a", "b", "c", "x", "y", "z", "w", "s", "p", "q", "t")
 
